@@ -415,6 +415,12 @@ def check_record_stream(fx, rep, rule, impl, rl):
     rep.check(rule, "%s/record-stream/%s" % (rule, impl), good, loc=F.loc(rl.loop["node"]),
               found="the record loop iterates %s" % (S.tstr(drv)[:300] if drv else "?"),
               expected="peekable(filter_map(<mapping>.iter(), Result::ok)): every Ok record of the whole mapping, in file order")
+    # ... and *all* of it: no record makes the loop stop (a `break` or `return` on a path that has a record in hand drops every
+    # record after it - e.g. `break` for `continue` at the inlined-callee test)
+    early = [p_ for p_ in rl.paths if p_["assign"].get(("is", NEXT, "Some")) is True and p_["exit"] in (S.BRK, S.RET)]
+    rep.check(rule, "%s/record-stream/%s/no-early-exit" % (rule, impl), not early, loc=F.loc(rl.loop["node"]),
+              found=("loop left with a record in hand when %s" % S.cstr(early[0]["conds"])[:300]) if early else "%d paths with a record in hand, all continue with the next record" % len([p_ for p_ in rl.paths if p_["assign"].get(("is", NEXT, "Some")) is True]),
+              expected="the record loop ends only when the stream is exhausted")
 
 
 def _is_result_ok(fx, t):
